@@ -14,6 +14,46 @@ DecOk(d, i, w) ==
     /\ d.exp = (IF i # 0 /\ NeedExpRow[i] THEN 1 ELSE 0)
     /\ d.args = (IF i = 0 THEN <<>> ELSE Args(i, w, d.x))
 
+(* The annotated form of the disassembler (optional ar/arp view, as test_verifier passes it): every ar/arp slot    *)
+(* name of the plain text is replaced by what the REGISTER specification says the slot holds once the six view     *)
+(* words are written to ar0, ar1, arp0..arp3 (TeakRegs!PSet, the bit-field views of C20); nothing else changes.     *)
+RG == INSTANCE TeakRegs WITH W <- 16
+StepNames   == <<"++0", "++1", "--1", "++s", "++2", "--2", "++2*", "--2*">>
+OffsetNames == <<"+0", "+1", "-1", "-1*">>
+Digit(k) == <<"0", "1", "2", "3", "4", "5", "6", "7">>[k + 1]
+ViewRegs(v) ==
+    LET r0 == RG!ResetRegs
+        r1 == RG!PSet(r0, "ar0", v[1])    r2 == RG!PSet(r1, "ar1", v[2])
+        r3 == RG!PSet(r2, "arp0", v[3])   r4 == RG!PSet(r3, "arp1", v[4])
+        r5 == RG!PSet(r4, "arp2", v[5])
+    IN  RG!PSet(r5, "arp3", v[6])
+\* slot piece -> annotated text; any other piece is kept
+Annot(piece, rg) ==
+    LET Try(k) ==
+          CASE piece = "arrn" \o Digit(k)   -> "%r" \o Digit(rg.arrn[k + 1])
+            [] piece = "+ars" \o Digit(k)   -> OffsetNames[rg.aroffset[k + 1] + 1] \o StepNames[rg.arstep[k + 1] + 1]
+            [] piece = "arprni" \o Digit(k) -> "%r" \o Digit(rg.arprni[k + 1])
+            [] piece = "+arpsi" \o Digit(k) -> OffsetNames[rg.arpoffseti[k + 1] + 1] \o StepNames[rg.arpstepi[k + 1] + 1]
+            [] piece = "arprnj" \o Digit(k) -> "%r" \o Digit(rg.arprnj[k + 1] + 4)
+            [] piece = "+arpsj" \o Digit(k) -> OffsetNames[rg.arpoffsetj[k + 1] + 1] \o StepNames[rg.arpstepj[k + 1] + 1]
+            [] OTHER -> ""
+    IN  IF Try(0) # "" THEN Try(0) ELSE IF Try(1) # "" THEN Try(1) ELSE IF Try(2) # "" THEN Try(2)
+        ELSE IF Try(3) # "" THEN Try(3) ELSE piece
+RECURSIVE Join(_, _, _)
+Join(ps, j, annot) == IF j > Len(ps) THEN "" ELSE (IF annot = <<>> THEN ps[j] ELSE Annot(ps[j], annot[1])) \o Join(ps, j + 1, annot)
+\* the slot operands the decode table gives the row are exactly the slot pieces of its text
+SlotTypes == {"ArRn1", "ArRn2", "ArStep1", "ArStep1Alt", "ArStep2", "ArpRn1", "ArpRn2", "ArpStep1", "ArpStep2"}
+RowHasSlot(i) == i # 0 /\ \E k \in 1 .. Len(Rows[i].ops) : Rows[i].ops[k].t \in SlotTypes
+IsSlotPiece(p) == Annot(p, RG!ResetRegs) # p
+ViewOk(r, i) ==
+    LET rg == ViewRegs(r.view) IN
+    /\ r.tok0 = r.tok                                   \* the answer does not depend on the calls made before
+    /\ Len(r.atoms) = Len(r.tok) /\ Len(r.tokv) = Len(r.tok)
+    /\ \A k \in 1 .. Len(r.tok) :
+          /\ Join(r.atoms[k], 1, <<>>) = r.tok[k]        \* the recorder's cut is a cut of the plain token
+          /\ Join(r.atoms[k], 1, <<rg>>) = r.tokv[k]
+    /\ r.err = 0 => (RowHasSlot(i) <=> \E k \in 1 .. Len(r.atoms) : \E j \in 1 .. Len(r.atoms[k]) : IsSlotPiece(r.atoms[k][j]))
+
 RecOk(r) ==
     LET w == r.w
         i == Decode(w)
@@ -29,6 +69,7 @@ RecOk(r) ==
                     /\ r.pop = c
     \* an undefined word is never renderable
     /\ i = 0 => r.err = 1
+    /\ ViewOk(r, i)
 
 TraceInit == vL = 1
 TraceNext == vL <= Len(Log) /\ RecOk(Rec) /\ vL' = vL + 1
